@@ -143,4 +143,356 @@ theorem regStep_of_step (s s' : State) (op : Op) (resp : CoinList) (h : step s o
     obtain ⟨_, _, _, _, _, _, _, hrem⟩ := stepRem1_ok hs
     exact regStep_of_cfg (rem1Liq_ok hrem).2.1
 
+
+/-! ### well-formedness is preserved -/
+
+theorem regwf_of_regStep {s s' : State} (hw : RegWF s) (hg : GenWF s) (h : RegStep s s') : RegWF s' := by
+  cases h with
+  | same e1 e2 e3 e4 | params e1 e2 e3 e4 =>
+    constructor
+    · intro cp n hgt; rw [e1]; rw [e3] at hgt; exact hw.cpne cp n hgt
+    · intro cp n hgt; rw [e4]; rw [e3] at hgt; exact hw.lt cp n hgt
+    · intro c c' n h1 h2; rw [e3] at h1 h2; exact hw.inj c c' n h1 h2
+    · intro cp n hm; rw [e3] at hm ⊢; exact hw.mem cp n hm
+  | created cp hnone hden hstd e1 e2 e3 e4 =>
+    constructor
+    · intro c n hgt
+      rw [e3] at hgt; rw [e1]
+      rcases Irismod.Props.C01.get?_set_cases hgt with ⟨e, _⟩ | ⟨_, hg'⟩
+      · rw [e]; exact hstd
+      · exact hw.cpne c n hg'
+    · intro c n hgt
+      rw [e3] at hgt; rw [e4]
+      rcases Irismod.Props.C01.get?_set_cases hgt with ⟨_, e⟩ | ⟨_, hg'⟩
+      · omega
+      · have := hw.lt c n hg'; omega
+    · intro c c' n h1 h2
+      rw [e3] at h1 h2
+      rcases Irismod.Props.C01.get?_set_cases h1 with ⟨a1, f1⟩ | ⟨a1, g1⟩ <;>
+        rcases Irismod.Props.C01.get?_set_cases h2 with ⟨a2, f2⟩ | ⟨a2, g2⟩
+      · rw [a1, a2]
+      · have := hw.lt c' n g2; omega
+      · have := hw.lt c n g1; omega
+      · exact hw.inj c c' n g1 g2
+    · intro c n hm
+      rw [e3] at hm ⊢
+      rcases Irismod.Props.C01.mem_set_none hnone hm with h' | ⟨a1, a2⟩
+      · have hgt := hw.mem c n h'
+        have hck : cp ≠ c := by intro e; rw [e] at hnone; rw [hnone] at hgt; cases hgt
+        rw [AMap.get?_set_other _ _ _ _ hck]; exact hgt
+      · rw [a1, a2]; exact AMap.get?_set_self _ _ _
+
+theorem genwf_of_regStep {s s' : State} (hw : RegWF s) (hg : GenWF s) (h : RegStep s s') : GenWF s' := by
+  cases h with
+  | same e1 e2 e3 e4 =>
+    exact ⟨by rw [e3]; exact hg.nodup, by rw [e1]; exact hg.stdOk, by rw [e3]; exact hg.cpOk,
+      by rw [e2]; exact hg.parOk, by rw [e4]; exact hg.seqPos, by rw [e3]; exact hg.nPos,
+      by rw [e3, e4]; exact hg.surj⟩
+  | params e1 e2 e3 e4 =>
+    exact ⟨by rw [e3]; exact hg.nodup, by rw [e1]; exact hg.stdOk, by rw [e3]; exact hg.cpOk,
+      e2, by rw [e4]; exact hg.seqPos, by rw [e3]; exact hg.nPos, by rw [e3, e4]; exact hg.surj⟩
+  | created cp hnone hden hstd e1 e2 e3 e4 =>
+    have hnk : cp ∉ AMap.keys s.pools := (get?_eq_none_iff _ _).mp hnone
+    refine ⟨by rw [e3]; exact nodupKeys_set hg.nodup _ _, by rw [e1]; exact hg.stdOk, ?_,
+      by rw [e2]; exact hg.parOk, by rw [e4]; omega, ?_, ?_⟩
+    · intro c hc
+      rw [e3, mem_keys_set] at hc
+      rcases hc with e | hc
+      · rw [e]; exact hden
+      · exact hg.cpOk c hc
+    · intro c n hgt
+      rw [e3] at hgt
+      rcases Irismod.Props.C01.get?_set_cases hgt with ⟨_, e⟩ | ⟨_, hg'⟩
+      · have := hg.seqPos; omega
+      · exact hg.nPos c n hg'
+    · intro n h1 h2
+      rw [e4] at h2; rw [e3]
+      by_cases hn : n = s.seq
+      · exact ⟨cp, by rw [hn]; exact AMap.get?_set_self _ _ _⟩
+      · obtain ⟨c, hc⟩ := hg.surj n h1 (by omega)
+        have hck : cp ≠ c := by intro e; rw [e] at hnone; rw [hnone] at hc; cases hc
+        exact ⟨c, by rw [AMap.get?_set_other _ _ _ _ hck]; exact hc⟩
+
+/-! ### export -/
+
+/-- the sequence the registry records for `cp` -/
+def seqOf (s : State) (cp : Denom) : Nat := AMap.getD s.pools cp 0
+
+theorem get?_seqOf {s : State} {cp : Denom} (h : cp ∈ AMap.keys s.pools) : AMap.get? s.pools cp = some (seqOf s cp) := by
+  obtain ⟨v, hv⟩ := (mem_keys_iff _ _).mp h
+  unfold seqOf AMap.getD
+  rw [hv]; rfl
+
+theorem exportPools_eq (s : State) :
+    exportPools s = (sortDedup (AMap.keys s.pools)).map fun cp => mkPool s.std cp (seqOf s cp) := rfl
+
+/-- the validation loop accepts the exported records of any duplicate-free list of registered
+counterparties, and returns the largest sequence seen -/
+theorem validatePools_export (s : State) (hw : RegWF s) (hg : GenWF s) (hr : s.seq ≤ 18446744073709551616) :
+    ∀ (cps : List Denom) (ids lpts : List String) (mx : Nat), cps.Nodup → (∀ cp ∈ cps, cp ∈ AMap.keys s.pools) →
+      (∀ cp ∈ cps, poolId cp ∉ ids) → (∀ cp ∈ cps, lptDenom (seqOf s cp) ∉ lpts) →
+      ∃ mx', validatePools (cps.map fun cp => mkPool s.std cp (seqOf s cp)) ids lpts mx = .ok mx' ∧
+        mx ≤ mx' ∧ (∀ cp ∈ cps, seqOf s cp ≤ mx') ∧ (mx' = mx ∨ ∃ cp ∈ cps, mx' = seqOf s cp)
+  | [], ids, lpts, mx, _, _, _, _ => ⟨mx, rfl, Nat.le_refl _, by simp, Or.inl rfl⟩
+  | cp :: t, ids, lpts, mx, hnd, hk, hi, hl => by
+    rw [List.nodup_cons] at hnd
+    have hcpk := hk cp (by simp)
+    have hget := get?_seqOf hcpk
+    have hlt := hw.lt cp _ hget
+    simp only [List.map_cons, validatePools, mkPool]
+    have h1 : ids.contains (poolId cp) = false := by
+      simpa using hi cp (by simp)
+    have h2 : lpts.contains (lptDenom (seqOf s cp)) = false := by
+      simpa using hl cp (by simp)
+    simp only [h1, h2, Bool.false_eq_true, if_false, lptSeq_lptDenom]
+    have h3 : seqOf s cp < 18446744073709551616 := by omega
+    simp only [h3, not_true_eq_false, if_false, hg.cpOk cp hcpk, hg.stdOk, validAddr_poolAddr, Bool.not_true]
+    obtain ⟨mx', hv, hle, hall, hatt⟩ := validatePools_export s hw hg hr t (poolId cp :: ids)
+      (lptDenom (seqOf s cp) :: lpts) (max mx (seqOf s cp)) hnd.2 (fun c hc => hk c (List.mem_cons_of_mem _ hc))
+      (by
+        intro c hc hm
+        rcases List.mem_cons.mp hm with e | hm
+        · have := poolId_inj e; subst this; exact hnd.1 hc
+        · exact hi c (List.mem_cons_of_mem _ hc) hm)
+      (by
+        intro c hc hm
+        rcases List.mem_cons.mp hm with e | hm
+        · have e' := lptDenom_inj e
+          have g1 := get?_seqOf (hk c (List.mem_cons_of_mem _ hc))
+          rw [e'] at g1
+          have := hw.inj c cp _ g1 hget
+          subst this; exact hnd.1 hc
+        · exact hl c (List.mem_cons_of_mem _ hc) hm)
+    refine ⟨mx', hv, by omega, ?_, ?_⟩
+    · intro c hc
+      rcases List.mem_cons.mp hc with e | hc
+      · subst e; omega
+      · exact hall c hc
+    · rcases hatt with e | ⟨c, hc, e⟩
+      · by_cases hm : mx ≤ seqOf s cp
+        · exact Or.inr ⟨cp, by simp, by omega⟩
+        · exact Or.inl (by omega)
+      · exact Or.inr ⟨c, List.mem_cons_of_mem _ hc, e⟩
+
+theorem validParams_eq {p : Params} (h : validParams p = true) : (!validParams p) = false := by simp [h]
+
+/-- **export validates** -/
+theorem validate_export (s : State) (hw : RegWF s) (hg : GenWF s) (hr : s.seq ≤ 18446744073709551616) :
+    validateGenesis (exportGenesis s) = .ok () := by
+  unfold validateGenesis exportGenesis
+  simp only [hg.stdOk, Bool.not_true, Bool.false_eq_true, if_false, exportPools_eq]
+  obtain ⟨mx, hv, _, hall, hatt⟩ := validatePools_export s hw hg hr (sortDedup (AMap.keys s.pools)) [] [] 0
+    (nodup_sortDedup _) (fun cp hc => (mem_sortDedup _ _).mp hc) (by simp) (by simp)
+  rw [hv]
+  have hmx : mx + 1 = s.seq := by
+    have hpos := hg.seqPos
+    have hup : mx + 1 ≤ s.seq := by
+      rcases hatt with e | ⟨c, hc, e⟩
+      · omega
+      · have := hw.lt c _ (get?_seqOf ((mem_sortDedup _ _).mp hc)); omega
+    by_cases h1 : s.seq = 1
+    · omega
+    · obtain ⟨c, hc⟩ := hg.surj (s.seq - 1) (by omega) (by omega)
+      have hck : c ∈ AMap.keys s.pools := (mem_keys_iff _ _).mpr ⟨_, hc⟩
+      have := hall c ((mem_sortDedup _ _).mpr hck)
+      have e2 := get?_seqOf hck
+      rw [hc] at e2
+      have e3 : s.seq - 1 = seqOf s c := Option.some.inj e2
+      omega
+  simp only [hmx, ne_eq, not_true_eq_false, if_false, hg.parOk, Bool.not_true, Bool.false_eq_true]
+
+
+/-! ### import -/
+
+theorem poolEntry_mk (std cp : Denom) (n : Nat) : poolEntry std (mkPool std cp n) = some (cp, n) := by
+  unfold poolEntry
+  simp [mkPool, lptSeq_lptDenom]
+
+theorem importPools_export (std : Denom) (f : Denom → Nat) : ∀ (cps : List Denom) (m : AMap Denom Nat),
+    importPools std (cps.map fun cp => mkPool std cp (f cp)) m
+      = some (cps.foldl (fun acc cp => AMap.set acc cp (f cp)) m)
+  | [], m => rfl
+  | cp :: t, m => by
+    simp only [List.map_cons, importPools, poolEntry_mk, List.foldl_cons]
+    exact importPools_export std f t _
+
+theorem keys_append' (m1 m2 : AMap Denom Nat) : AMap.keys (m1 ++ m2) = AMap.keys m1 ++ AMap.keys m2 := by
+  simp [AMap.keys]
+
+/-- writing fresh, pairwise distinct keys appends the bindings in order -/
+theorem foldl_set_fresh' (f : Denom → Nat) : ∀ (cps : List Denom) (m0 : AMap Denom Nat),
+    cps.Nodup → (∀ cp ∈ cps, cp ∉ AMap.keys m0) →
+    cps.foldl (fun acc cp => AMap.set acc cp (f cp)) m0 = m0 ++ cps.map (fun cp => (cp, f cp))
+  | [], m0, _, _ => by simp
+  | x :: t, m0, hn, hf => by
+    rw [List.nodup_cons] at hn
+    simp only [List.foldl_cons]
+    rw [set_of_not_mem m0 _ _ (hf x (by simp))]
+    rw [foldl_set_fresh' f t _ hn.2]
+    · simp
+    · intro y hy
+      rw [keys_append', List.mem_append, not_or]
+      refine ⟨hf y (List.mem_cons_of_mem _ hy), ?_⟩
+      simp only [AMap.keys, List.map_cons, List.map_nil, List.mem_singleton]
+      intro e
+      exact hn.1 (e ▸ hy)
+
+/-- the registry after `InitGenesis(ExportGenesis(s))`: the same bindings in store-key order -/
+def reimportPools (s : State) : AMap Denom Nat :=
+  (sortDedup (AMap.keys s.pools)).map fun cp => (cp, seqOf s cp)
+
+/-- the state after the round trip: only the order of the registry list can differ -/
+def reimport (s : State) : State := { s with pools := reimportPools s }
+
+theorem keys_reimportPools (s : State) : AMap.keys (reimportPools s) = sortDedup (AMap.keys s.pools) := by
+  simp [reimportPools, AMap.keys, List.map_map, Function.comp_def]
+
+theorem nodup_reimportPools (s : State) : NodupKeys (reimportPools s) := by
+  unfold NodupKeys; rw [keys_reimportPools]; exact nodup_sortDedup _
+
+/-- `GetPool` answers the same after the round trip -/
+theorem get?_reimportPools (s : State) (cp : Denom) :
+    AMap.get? (reimportPools s) cp = AMap.get? s.pools cp := by
+  by_cases hk : cp ∈ AMap.keys s.pools
+  · rw [get?_seqOf hk]
+    apply get?_of_mem (nodup_reimportPools s)
+    unfold reimportPools
+    exact List.mem_map.mpr ⟨cp, (mem_sortDedup _ _).mpr hk, rfl⟩
+  · rw [(get?_eq_none_iff _ _).mpr hk]
+    apply (get?_eq_none_iff _ _).mpr
+    rw [keys_reimportPools, mem_sortDedup]; exact hk
+
+/-- **import succeeds** on the exported document, and yields `reimport s` -/
+theorem import_export (s : State) (hw : RegWF s) (hg : GenWF s) (hr : s.seq ≤ 18446744073709551616) :
+    importGenesis s (exportGenesis s) = .ok (reimport s) := by
+  unfold importGenesis
+  rw [validate_export s hw hg hr]
+  simp only [exportGenesis, exportPools_eq]
+  rw [importPools_export, foldl_set_fresh' _ _ _ (nodup_sortDedup _) (by simp [AMap.keys])]
+  rfl
+
+/-! ### what the round trip preserves -/
+
+theorem findByLpt_none {m : AMap Denom Nat} {d : Denom} (h : findByLpt m d = none) :
+    ∀ cp n, (cp, n) ∈ m → lptDenom n ≠ d := by
+  induction m with
+  | nil => intro cp n hm; cases hm
+  | cons hd t ih =>
+    obtain ⟨c, k⟩ := hd
+    simp only [findByLpt] at h
+    split at h
+    · cases h
+    · rename_i hne
+      intro cp n hm
+      rcases List.mem_cons.mp hm with e | hm
+      · cases e; exact hne
+      · exact ih h cp n hm
+
+/-- `GetPoolByLptDenom` is determined by the bindings (keys distinct, one counterparty per sequence) -/
+theorem findByLpt_congr {m1 m2 : AMap Denom Nat} (n1 : NodupKeys m1) (n2 : NodupKeys m2)
+    (inj2 : ∀ c c' n, AMap.get? m2 c = some n → AMap.get? m2 c' = some n → c = c')
+    (h : ∀ cp, AMap.get? m1 cp = AMap.get? m2 cp) (d : Denom) : findByLpt m1 d = findByLpt m2 d := by
+  cases h1 : findByLpt m1 d with
+  | none =>
+    cases h2 : findByLpt m2 d with
+    | none => rfl
+    | some e =>
+      obtain ⟨c, n⟩ := e
+      obtain ⟨hl, hm⟩ := findByLpt_some h2
+      have hg2 := get?_of_mem n2 hm
+      rw [← h] at hg2
+      exact absurd hl (findByLpt_none h1 c n (mem_of_get? hg2))
+  | some e =>
+    obtain ⟨c, n⟩ := e
+    obtain ⟨hl, hm⟩ := findByLpt_some h1
+    have hg2 : AMap.get? m2 c = some n := by rw [← h]; exact get?_of_mem n1 hm
+    cases h2 : findByLpt m2 d with
+    | none => exact absurd hl (findByLpt_none h2 c n (mem_of_get? hg2))
+    | some e' =>
+      obtain ⟨c', n'⟩ := e'
+      obtain ⟨hl', hm'⟩ := findByLpt_some h2
+      have hn : n' = n := lptDenom_inj (hl'.trans hl.symm)
+      subst hn
+      have := inj2 c c' n' hg2 (get?_of_mem n2 hm')
+      subst this; rfl
+
+theorem seqOf_reimport (s : State) (cp : Denom) : seqOf (reimport s) cp = seqOf s cp := by
+  unfold seqOf AMap.getD reimport
+  simp only [get?_reimportPools]
+
+/-- **fixpoint**: exporting the re-imported state gives the same document -/
+theorem export_reimport (s : State) : exportGenesis (reimport s) = exportGenesis s := by
+  unfold exportGenesis
+  have hp : exportPools (reimport s) = exportPools s := by
+    rw [exportPools_eq, exportPools_eq]
+    have hk : AMap.keys (reimport s).pools = sortDedup (AMap.keys s.pools) := keys_reimportPools s
+    rw [hk, sortDedup_idem_of_sorted (sorted_sortDedup _)]
+    apply List.map_congr_left
+    intro cp _
+    rw [seqOf_reimport]; rfl
+  rw [hp]; rfl
+
+theorem regwf_reimport {s : State} (hw : RegWF s) : RegWF (reimport s) := by
+  constructor
+  · intro cp n hgt; exact hw.cpne cp n (by rw [← get?_reimportPools]; exact hgt)
+  · intro cp n hgt; exact hw.lt cp n (by rw [← get?_reimportPools]; exact hgt)
+  · intro c c' n h1 h2
+    exact hw.inj c c' n (by rw [← get?_reimportPools]; exact h1) (by rw [← get?_reimportPools]; exact h2)
+  · intro cp n hm; exact get?_of_mem (nodup_reimportPools s) hm
+
+theorem genwf_reimport {s : State} (hg : GenWF s) : GenWF (reimport s) := by
+  refine ⟨nodup_reimportPools s, hg.stdOk, ?_, hg.parOk, hg.seqPos, ?_, ?_⟩
+  · intro cp hc
+    have : cp ∈ AMap.keys (reimportPools s) := hc
+    rw [keys_reimportPools, mem_sortDedup] at this
+    exact hg.cpOk cp this
+  · intro cp n hgt; exact hg.nPos cp n (by rw [← get?_reimportPools]; exact hgt)
+  · intro n h1 h2
+    obtain ⟨c, hc⟩ := hg.surj n h1 h2
+    exact ⟨c, by show AMap.get? (reimportPools s) c = some n; rw [get?_reimportPools]; exact hc⟩
+
+
+/-! ### the next pool creation does not see the round trip -/
+
+theorem deductFee_withPools (s : State) (P : AMap Denom Nat) (sender : Addr) :
+    deductFee { s with pools := P } sender =
+      match deductFee s sender with
+      | .ok s1 => .ok { s1 with pools := P }
+      | .error e => .error e := by
+  unfold deductFee
+  by_cases hc : s.params.pcfAmt * s.params.tax < pow2_315
+  · simp only [hc, not_true_eq_false, if_false]
+    cases h1 : s.bank.send sender modAddr s.params.pcfDenom s.params.pcfAmt with
+    | none => rfl
+    | some b1 =>
+      simp only []
+      cases h2 : b1.send modAddr fcAddr s.params.pcfDenom (s.params.pcfAmt * s.params.tax / D) with
+      | none => rfl
+      | some b2 =>
+        simp only []
+        cases h3 : burnCk b2 modAddr s.params.pcfDenom (s.params.pcfAmt - s.params.pcfAmt * s.params.tax / D) with
+        | error e => rfl
+        | ok b3 => rfl
+  · simp only [hc, not_false_eq_true, if_true]; rfl
+
+/-- `addLiquidity` reads only the bank and the standard denom -/
+theorem addLiq_frame (s sX : State) (hb : sX.bank = s.bank) (hs : sX.std = s.std) (sender : Addr) (n : Nat)
+    (cp : Denom) (dS t m : Nat) :
+    addLiq sX sender n cp dS t m =
+      match addLiq s sender n cp dS t m with
+      | .ok (u, r) => .ok ({ sX with bank := u.bank }, r)
+      | .error e => .error e := by
+  obtain ⟨bk, sd, pa, po, sq, nw, bl⟩ := sX
+  simp only at hb hs
+  subst hb; subst hs
+  unfold addLiq
+  simp only []
+  cases h1 : s.bank.send sender (poolAddr n) s.std dS with
+  | none => rfl
+  | some b1 =>
+    simp only []
+    cases h2 : b1.send sender (poolAddr n) cp t with
+    | none => rfl
+    | some b2 => rfl
+
 end Irismod.Proofs.CoinswapGenesis
